@@ -968,6 +968,48 @@ theorem relH_run_all {R : Restr} (c : Cfg) (ns : List Note) {p p' : Phase}
       have := relH_step_all c hrel hso hq
       exact ih this.1 this.2 hp
 
+/-! ### hosted `take` / `drop` callbacks: one `on_remove` per removed entry, in key order, each with the map after it -/
+
+theorem look_of_mem_sorted (m : AMap) (p : Int × Int) (h : SortedK m) (hp : p ∈ m) : look p.1 m = some p.2 := by
+  induction m with
+  | nil => cases hp
+  | cons q r ih =>
+    unfold SortedK at h
+    simp only [keys, List.map_cons, List.pairwise_cons] at h
+    obtain ⟨hq, hr⟩ := h
+    rcases List.mem_cons.mp hp with hp | hp
+    · subst hp; simp [look]
+    · have hk : p.1 ∈ List.map (fun (x : Int × Int) => x.1) r := List.mem_map_of_mem (f := fun (x : Int × Int) => x.1) hp
+      have := hq p.1 hk
+      have hne : ¬ q.1 = p.1 := by omega
+      simp only [look, hne, ↓reduceIte]
+      exact ih hr hp
+
+theorem removeSeq_snd_sorted (m b : AMap) (h : SortedK m) (hb : b.Sublist m) :
+    (removeSeq true m (keys b)).2 = refRemoveSeq m b := by
+  induction b generalizing m with
+  | nil => rfl
+  | cons p r ih =>
+    have hp : p ∈ m := hb.subset (List.mem_cons_self)
+    have hl := look_of_mem_sorted m p h hp
+    have hbs : SortedK (p :: r) := sublist_sorted hb h
+    unfold SortedK at hbs
+    simp only [keys, List.map_cons, List.pairwise_cons] at hbs
+    have hr : r.Sublist (del p.1 m) := by
+      rw [del_eq_filter]
+      have h1 : (r.filter fun q => !(q.1 == p.1)) = r := by
+        rw [List.filter_eq_self]
+        intro q hq
+        have hk : q.1 ∈ List.map (fun (x : Int × Int) => x.1) r := List.mem_map_of_mem (f := fun (x : Int × Int) => x.1) hq
+        have := hbs.1 q.1 hk
+        have hne : ¬ q.1 = p.1 := by omega
+        simp [hne]
+      rw [← h1]
+      exact List.Sublist.filter _ ((List.sublist_cons_self p r).trans hb)
+    simp only [keys, List.map_cons, removeSeq, hl, refRemoveSeq, cbIf, ↓reduceIte, List.singleton_append]
+    congr 1
+    exact ih (del p.1 m) (del_sorted p.1 m h) hr
+
 theorem sortedK_nil : SortedK ([] : AMap) := by simp [SortedK, keys]
 
 theorem specCbs_not_synced (sp : Option AMap) (d : Bool) (n : Note) (hn : n ≠ .synced) (m : AMap) :
